@@ -105,7 +105,11 @@ func (n *critNode) criteria() ext.Criteria {
 	if n.op == "or" {
 		lo = ext.OR
 	}
-	return ext.CondGroup{LogicalOper: lo, Conds: []ext.Criteria{n.kids[0].criteria(), n.kids[1].criteria()}}
+	conds := make([]ext.Criteria, len(n.kids))
+	for i, k := range n.kids {
+		conds[i] = k.criteria()
+	}
+	return ext.CondGroup{LogicalOper: lo, Conds: conds}
 }
 
 func normNum(f float64) string { return "num:" + strconv.Quote(strconv.FormatFloat(f, 'g', -1, 64)) }
@@ -363,7 +367,7 @@ func typeOfName(t string) *types.Type {
 	return types.Time
 }
 
-func checkCriteria(c *run.Ctx, r *rand.Rand, tree *critNode) {
+func checkCriteria(c *run.Ctx, r *rand.Rand, tree *critNode, force ...map[string]critOperand) {
 	c.Count("criteria_compiled", 1)
 	tenv := types.NewEnv()
 	for n, t := range c20Fields {
@@ -384,6 +388,21 @@ func checkCriteria(c *run.Ctx, r *rand.Rand, tree *critNode) {
 			for o.kind == "name" {
 				o = genOperand(r, c20Fields[n])
 			}
+			bound[n] = o
+			switch o.kind {
+			case "num":
+				venv.Put(n, val.Num(o.num))
+			case "str":
+				venv.Put(n, val.Str(o.str))
+			case "bool":
+				venv.Put(n, val.Bool(o.b))
+			case "time":
+				venv.Put(n, val.Time(time.Unix(o.ts, 0)))
+			}
+		}
+	}
+	for _, fm := range force { // bindings the case insists on
+		for n, o := range fm {
 			bound[n] = o
 			switch o.kind {
 			case "num":
@@ -514,6 +533,9 @@ func runC20(c *run.Ctx) {
 			}
 		})
 	}
+	// the same group twice in one tree, in positions with different
+	// parenthesisation needs
+	repeatedGroups(c)
 	// every operand string and number in every position of a small tree
 	n := 0
 	for _, s := range c20Strs {
@@ -532,6 +554,12 @@ func runC20(c *run.Ctx) {
 				other := &critNode{op: "cond", field: "s2", rel: "=", ops: []critOperand{{kind: "name", name: "ps"}}}
 				for _, t := range []*critNode{leaf, {op: "and", kids: []*critNode{leaf, other}}, {op: "not", kids: []*critNode{{op: "or", kids: []*critNode{other, leaf}}}}} {
 					checkCriteria(c, r, t)
+				}
+				// the column name itself bound to the string at run time
+				isnull := &critNode{op: "cond", field: "s1", rel: "ISNULL"}
+				force := map[string]critOperand{"s1": {kind: "str", str: s}, "ps": {kind: "str", str: s}}
+				for _, t := range []*critNode{isnull, leaf, {op: "or", kids: []*critNode{{op: "not", kids: []*critNode{isnull}}, other}}, {op: "and", kids: []*critNode{other, {op: "and", kids: []*critNode{isnull, leaf}}}}} {
+					checkCriteria(c, r, t, force)
 				}
 			})
 		}
@@ -552,6 +580,104 @@ func runC20(c *run.Ctx) {
 	}
 }
 
+// subtrees lists every node of the tree in depth-first order.
+func subtrees(t *critNode, out *[]*critNode) {
+	*out = append(*out, t)
+	for _, k := range t.kids {
+		subtrees(k, out)
+	}
+}
+
+func cloneCrit(t *critNode) *critNode {
+	n := *t
+	n.kids = nil
+	for _, k := range t.kids {
+		n.kids = append(n.kids, cloneCrit(k))
+	}
+	return &n
+}
+
+// graft copies one subtree of t over another position of t, so that one
+// tree holds structurally identical groups in different contexts.
+func graft(r *rand.Rand, t *critNode) {
+	var all []*critNode
+	subtrees(t, &all)
+	var inner []*critNode
+	for _, n := range all {
+		if len(n.kids) > 0 {
+			inner = append(inner, n)
+		}
+	}
+	if len(inner) < 2 {
+		return
+	}
+	src := inner[1+r.Intn(len(inner)-1)]
+	dst := inner[r.Intn(len(inner))]
+	var below []*critNode
+	subtrees(src, &below)
+	for _, n := range below { // no cycles: the target must not lie inside the source
+		if n == dst {
+			return
+		}
+	}
+	dst.kids[r.Intn(len(dst.kids))] = cloneCrit(src)
+}
+
+func repeatedGroups(c *run.Ctx) {
+	leaf := func(f string, v float64) *critNode {
+		return &critNode{op: "cond", field: f, rel: "=", ops: []critOperand{{kind: "num", num: v}}}
+	}
+	groups := func() []*critNode {
+		a, b := leaf("n1", 1), &critNode{op: "cond", field: "s1", rel: "=", ops: []critOperand{{kind: "str", str: "x"}}}
+		return []*critNode{
+			{op: "or", kids: []*critNode{a, b}},
+			{op: "and", kids: []*critNode{a, b}},
+			{op: "not", kids: []*critNode{a}},
+			{op: "or", kids: []*critNode{{op: "and", kids: []*critNode{a, b}}, b}},
+			{op: "and", kids: []*critNode{{op: "or", kids: []*critNode{a, b}}, {op: "not", kids: []*critNode{b}}}},
+			a,
+		}
+	}
+	other := leaf("n2", 7)
+	ctxs := []func(g *critNode) *critNode{
+		func(g *critNode) *critNode { return g },
+		func(g *critNode) *critNode { return &critNode{op: "and", kids: []*critNode{g, other}} },
+		func(g *critNode) *critNode { return &critNode{op: "and", kids: []*critNode{other, g}} },
+		func(g *critNode) *critNode { return &critNode{op: "or", kids: []*critNode{g, other}} },
+		func(g *critNode) *critNode { return &critNode{op: "not", kids: []*critNode{g}} },
+		func(g *critNode) *critNode {
+			return &critNode{op: "not", kids: []*critNode{{op: "and", kids: []*critNode{other, g}}}}
+		},
+	}
+	n := 0
+	for gi := range groups() {
+		for i := range ctxs {
+			for j := range ctxs {
+				for _, top := range []string{"or", "and"} {
+					for _, share := range []bool{false, true} {
+						n++
+						if !c.Mine(n) {
+							continue
+						}
+						gi, i, j, top, share := gi, i, j, top, share
+						c.Case(fmt.Sprintf("repeat/%d/%d/%d/%s/%v", gi, i, j, top, share), func() {
+							g1 := groups()[gi]
+							g2 := g1 // the very same node object twice, or an equal copy
+							if !share {
+								g2 = cloneCrit(g1)
+							}
+							t := &critNode{op: top, kids: []*critNode{ctxs[i](g1), ctxs[j](g2)}}
+							c.Input(t.flat(nil))
+							checkCriteria(c, c.Rng("repeat", n), t)
+						})
+					}
+				}
+			}
+		}
+	}
+	c.Count("repeated_group_trees", n)
+}
+
 func min2(a, b int) int {
 	if a < b {
 		return a
@@ -562,7 +688,7 @@ func min2(a, b int) int {
 func init() {
 	run.Register(&run.Spec{
 		ID: "C20", Run: runC20, Level: "exploration",
-		Rule: "every AND / OR / NOT tree shape to depth 3 (2 776 shapes, exhaustive: true for shapes; leaves random over =,<>,<,<=,>,>=,IN,BETWEEN,LIKE,IS NULL on num/str/bool/time columns), sampled depth 4-5, and every adversarial operand string (quotes, doubled quotes, backslashes, trailing backslash, injection attempts, %, _, NUL, ^Z, control, invalid UTF-8, CJK, zero-width) and boundary number (fractions, > 2^53, > 2^63, 1e19, 1e20) in every literal / bound-parameter position; names bound or unbound in the run-time environment at random, each compiled criteria rendered 2-3 times with different bindings (unbound, bound, other values); string literals also in back-quoted source form; " +
+		Rule: "every AND / OR / NOT tree shape to depth 3 (2 776 shapes, exhaustive: true for shapes; leaves random over =,<>,<,<=,>,>=,IN,BETWEEN,LIKE,IS NULL on num/str/bool/time columns), sampled depth 4-5, and every adversarial operand string (quotes, doubled quotes, backslashes, trailing backslash, injection attempts, %, _, NUL, ^Z, control, invalid UTF-8, CJK, zero-width) and boundary number (fractions, > 2^53, > 2^63, 1e19, 1e20) in every literal / bound-parameter position; the same group (OR, AND, NOT, nested) twice in one tree under every pair of 6 contexts (bare, left/right of AND, of OR, under NOT, under NOT-AND; shared node object or equal copy) and random grafts of one subtree over another; every adversarial string also as the run-time value of the column of IS NULL / = / LIKE / IN; names bound or unbound in the run-time environment at random, each compiled criteria rendered 2-3 times with different bindings (unbound, bound, other values); string literals also in back-quoted source form; " +
 			"monitor = independent reader of the emitted dialect (backtick identifiers, double-quoted strings with backslash escapes, from_unixtime(n)); standard precedence comparison > NOT > AND > OR; AND/OR chains flattened; structure and operands compared with the criteria tree: each string operand must read back as exactly one literal (content compared whenever it is printable), numbers by value, booleans as 1/0, times by unix seconds, unbound names as columns, bound names as their values. distinct = distinct flattened criteria",
 		Assume:    []string{"non-finite numbers have no SQL form and are not generated", "string contents containing non-printable characters are checked for containment only (Go-style escapes such as \\x00 do not round-trip in MySQL but cannot leave the literal)"},
 		MinEvents: 3000, EventKey: "criteria_compiled",
